@@ -49,3 +49,6 @@ package uci
 //@   views uci
 //@   allow-extern fmt. strings. errors. io.
 //@   at-store board requires value != nil && !body(value.InvalidPieceCount())
+//@   # robustness: no argument list (any number of tokens, any contents) makes the handler index or slice
+//@   # out of range
+//@   nopanic
